@@ -24,3 +24,15 @@ HOOKS = dict(
 )
 
 NOT_READY_REASON = "runtime monitoring applies (DESIGN.md section 5) but the check is not yet implemented to a sound state; it will be claimed once it is silent on the unchanged tree and demonstrably sees a seeded break"
+
+PROPS["C19"] = dict(
+    quick=[st("quick", 90)],
+    thorough=[st("thorough", 900), st("tiny", 1500, variant="miri", hard_timeout=3000)],
+    floor=dict(quick=500, thorough=2000),
+    rule="bit-window cases: (operation family, source/destination bit offset mod 64 or mod 8, length mod 64, content pattern {zeros,ones,alternating,first,last,random}, base-pointer misalignment); every case compares ~60 arrow-buffer bit operations against Vec<bool> incl. all destination bits outside the addressed range; a class is distinct by that tuple and non-trivial when every operation of the family ran to the oracle; thorough enumerates offsets 0..=130 x lengths 0..=200 (single source) and 0..=70 x 0..=70 x 0..=140 (two sources) completely",
+    level="exploration",
+    level_text="Exhaustive-over-a-finite-grid runtime comparison of every public bit-mask primitive of arrow-buffer against a Vec<bool> model (quick: 1/3 sample of the single-source grid, 1/40 of the two-source grid; thorough: both grids complete plus 3M builder histories and 300k large windows, and a Miri run of a reduced grid for out-of-bounds reads/writes). Right level because the property is a finite-state statement about offsets/lengths/word boundaries which unit tests sample sparsely.",
+    level_note="Trusts the Vec<bool> model (a few lines per operation) and the closures being bitwise-local; says nothing about lengths beyond those run (sampled up to 1e5 bits). Miri covers only the reduced grid.",
+    technique="differential testing against an executable reference model (Vec<bool>), exhaustive offset x length grid, Miri UB interpreter",
+    assumptions=["word closures passed to the *_op helpers are bit-local functions, as their documentation requires"],
+)
